@@ -700,7 +700,7 @@ func (s *Service) serve(nc Conn) error {
 	atomic.StoreInt32(&s.state, stateStarted)
 	verifNote("sv.started", "", s.workerCount)
 
-	err = s.subscribe()
+	err = s.subscribe(nc, inCh)
 	if err != nil {
 		s.errorf("Failed to subscribe: %s", err)
 		go s.Shutdown()
@@ -906,7 +906,10 @@ func (s *Service) defaultPatterns() []string {
 
 // subscribe makes a nats subscription for each required request type, based on
 // the patterns used for ResetAll.
-func (s *Service) subscribe() error {
+//
+// The connection and channel are passed by the caller: the service counts as
+// started by now, and a concurrent Shutdown may clear s.nc and s.inCh.
+func (s *Service) subscribe(nc Conn, inCh chan *nats.Msg) error {
 	var err error
 	s.setDefaultOwnership()
 	if len(s.resetResources) == 0 && len(s.resetAccess) == 0 {
@@ -938,9 +941,9 @@ next:
 		}
 		s.tracef("sub %s", pattern)
 		if s.queueGroup == "" {
-			_, err = s.nc.ChanSubscribe(pattern, s.inCh)
+			_, err = nc.ChanSubscribe(pattern, inCh)
 		} else {
-			_, err = s.nc.ChanQueueSubscribe(pattern, s.queueGroup, s.inCh)
+			_, err = nc.ChanQueueSubscribe(pattern, s.queueGroup, inCh)
 		}
 		if err != nil {
 			return err
